@@ -239,3 +239,44 @@ func TestExceptionalSets(t *testing.T) {
 		t.Errorf("revert before byzantium: %v", r.Exc)
 	}
 }
+
+// An instruction outside the subset resolved by Env.External: the run goes on
+// from the supplied state; the return data buffer is what a CALL left (EIP-211).
+func TestExternalResume(t *testing.T) {
+	// PUSH1 0 x6 ; PUSH1 0xaa ; GAS ; CALL ; RETURNDATASIZE ; PUSH1 2 PUSH1 1 PUSH1 0 RETURNDATACOPY ; PUSH1 3 PUSH1 1 PUSH1 0 RETURNDATACOPY
+	code := []byte{0x60, 0, 0x60, 0, 0x60, 0, 0x60, 0, 0x60, 0, 0x60, 0xaa, 0x5a, 0xf1, 0x3d, 0x60, 2, 0x60, 1, 0x60, 0, 0x3e, 0x60, 3, 0x60, 1, 0x60, 0, 0x3e}
+	e := env(code, 100_000)
+	asked := 0
+	e.External = func(i int, op byte) *ExtResult {
+		asked++
+		if i != 7 || op != 0xf1 {
+			t.Fatalf("asked about step %d op %x", i, op)
+		}
+		return &ExtResult{Gas: 5000, Push: big.NewInt(1), Mem: nil, Ret: []byte{1, 2, 3}, RetKnown: true}
+	}
+	r := Run(all, e)
+	if asked != 1 || r.Halt != Exceptional || r.Exc != ExcReturnDataOOB {
+		t.Fatalf("asked %d, halt %v %v", asked, r.Halt, r.Exc)
+	}
+	if !r.Steps[7].External || r.Steps[7].Depth != 7 || r.Steps[8].GasBefore != 5000 || r.Steps[8].Depth != 1 {
+		t.Fatalf("steps around the call: %+v %+v", r.Steps[7], r.Steps[8])
+	}
+	// RETURNDATASIZE pushed 3; the first copy (2 bytes from 1) is in bounds and lands in memory
+	last := r.Steps[len(r.Steps)-1]
+	if last.Op != 0x60 || last.Stack[len(last.Stack)-1].Int64() != 1 || hex.EncodeToString(last.Mem[:2]) != "0203" {
+		t.Fatalf("after the first copy: %+v", last)
+	}
+	if r.EndStack[0].Int64() != 1 || r.EndStack[1].Int64() != 3 { // call result, RETURNDATASIZE
+		t.Fatalf("end stack %v", r.EndStack)
+	}
+	// unknown buffer: the run stops at RETURNDATASIZE
+	e.External = func(i int, op byte) *ExtResult { return &ExtResult{Gas: 5000, Push: big.NewInt(0)} }
+	if r := Run(all, e); r.Halt != Unmodelled || r.EndOp != 0x3d || len(r.Steps) != 8 {
+		t.Fatalf("unknown return data: %v at %x after %d steps", r.Halt, r.EndOp, len(r.Steps))
+	}
+	// no answer: as without External
+	e.External = func(i int, op byte) *ExtResult { return nil }
+	if r := Run(all, e); r.Halt != Unmodelled || r.EndOp != 0xf1 || len(r.Steps) != 7 {
+		t.Fatalf("no answer: %v at %x after %d steps", r.Halt, r.EndOp, len(r.Steps))
+	}
+}
